@@ -17,8 +17,9 @@ LEVEL = "exploration"
 RULE = (
     "decks = the 67 corpus decks + generated decks (default template + seeded history of additions); a case = (deck, "
     "traversal order seed, passes, number of intermediate saves). Pass 'basic' = the accessors listed in the statement; pass "
-    "'format' adds formatting readers (font/paragraph/fill/line/axis readers); pass 'creating' exercises accessors documented "
-    "as creating content, whose documented effect is the only change allowed. Non-trivial when the deck has >= 1 slide and "
+    "'format' adds formatting readers (font/paragraph/fill/line/axis readers); unit 'creating' applies each accessor documented "
+    "as creating content (notes_slide, notes_master, chart_title, its text_frame, axis_title, background.fill, core_properties, "
+    "text_frame) alone on each deck: its documented effect is the only change allowed. Non-trivial when the deck has >= 1 slide and "
     "the traversal called >= 30 distinct accessors. Distinct by (deck, order seed, passes)."
 )
 ASSUMPTIONS = [
@@ -398,6 +399,153 @@ def describe_change(a, b):
     return walk(ra, rb) or "?"
 
 
+# ------------------------------------------------------------------ accessors documented as creating content
+# accessor -> (function(prs, rnd) -> number of objects it was applied to, allowed difference keys (regex))
+def _cr_notes_slide(prs, rnd):
+    n = 0
+    for s in prs.slides:
+        if not s.has_notes_slide:
+            _ = s.notes_slide
+            n += 1
+            break
+    return n
+
+
+def _cr_notes_master(prs, rnd):
+    _ = prs.notes_master
+    return 1
+
+
+def _charts(prs):
+    for s in prs.slides:
+        for sh in s.shapes:
+            if getattr(sh, "has_chart", False):
+                try:
+                    yield sh.chart
+                except Exception:  # noqa
+                    continue
+
+
+def _cr_chart_title(prs, rnd):
+    n = 0
+    for ch in _charts(prs):
+        if not ch.has_title:
+            _ = ch.chart_title
+            n += 1
+    return n
+
+
+def _cr_chart_title_tf(prs, rnd):
+    n = 0
+    for ch in _charts(prs):
+        if ch.has_title and not ch.chart_title.has_text_frame:
+            _ = ch.chart_title.text_frame
+            n += 1
+    return n
+
+
+def _cr_axis_title(prs, rnd):
+    n = 0
+    for ch in _charts(prs):
+        for axn in ("category_axis", "value_axis"):
+            try:
+                ax = getattr(ch, axn)
+            except ValueError:
+                continue
+            if not ax.has_title:
+                _ = ax.axis_title
+                n += 1
+    return n
+
+
+def _cr_background_fill(prs, rnd):
+    n = 0
+    for s in list(prs.slides)[:2]:
+        _ = s.background.fill
+        n += 1
+    return n
+
+
+def _cr_core_properties(prs, rnd):
+    if any(r.reltype.endswith("/core-properties") for r in prs.part.package._rels.values()):
+        return 0
+    _ = prs.core_properties
+    return 1
+
+
+def _cr_text_frame(prs, rnd):
+    n = 0
+    for s in prs.slides:
+        for sh in s.shapes:
+            if sh.__class__.__name__ == "Shape" and sh._element.find("{%s}txBody" % P) is None:
+                _ = sh.text_frame
+                n += 1
+    return n
+
+
+CREATING = {
+    "Slide.notes_slide": (_cr_notes_slide, r"part-appeared:(notesSlide|notesMaster|theme)$|reference-appeared:(slide|notesMaster|theme)$|part-changed:p:presentation>p:notesMasterIdLst:added$"),
+    "Presentation.notes_master": (_cr_notes_master, r"part-appeared:(notesMaster|theme)$|part-changed:p:presentation>p:notesMasterIdLst:added$"),
+    "Chart.chart_title": (_cr_chart_title, r"part-changed:c:chart>c:title:added$"),
+    "ChartTitle.text_frame": (_cr_chart_title_tf, r"part-changed:c:title>c:tx:added$"),
+    "_BaseAxis.axis_title": (_cr_axis_title, r"part-changed:c:(catAx|valAx|dateAx)>c:title:added$"),
+    "_Background.fill": (_cr_background_fill, r"part-changed:p:cSld>p:bg:added$|part-changed:p:bg>p:bgPr:added$|part-changed:p:bgRef-vs-p:bgPr$"),
+    "Presentation.core_properties": (_cr_core_properties, r"part-appeared:core-properties$"),
+    "Shape.text_frame": (_cr_text_frame, r"$^"),  # an empty text body equals an absent one: no difference may remain at all
+}
+
+
+def creating_case(data, label, accessor, acc, witness):
+    """One documented-as-creating accessor applied alone: the documented effect is the only change allowed."""
+    import re
+
+    import pptx
+    from vlib import env, opcx
+
+    fn, allowed = CREATING[accessor]
+    base = pptx.Presentation(io.BytesIO(data))
+    traverse(base, env.rng("C12cr", label), ("basic",))  # same tolerated side effects on both sides
+    b0 = io.BytesIO()
+    base.save(b0)
+    prs = pptx.Presentation(io.BytesIO(data))
+    traverse(prs, env.rng("C12cr", label), ("basic",))
+    try:
+        n = fn(prs, None)
+    except (NotImplementedError, KeyError, ValueError, AttributeError) as e:
+        acc.count("documented_limitation:%s:%s" % (accessor, type(e).__name__))
+        return
+    if not n:
+        acc.count("creating_accessor_not_applicable:" + accessor)
+        return
+    b1 = io.BytesIO()
+    prs.save(b1)
+    ga = graph(opcx.Pkg.from_bytes(b0.getvalue()))
+    gb = graph(opcx.Pkg.from_bytes(b1.getvalue()))
+    acc.hit("creating:" + accessor)
+    acc.count("creating_accessor_applications", n)
+    seen_documented = False
+    for kind, path, pair in compare_graphs(ga, gb):
+        if kind == "part-changed":
+            if pair[0][0] in ("external", "ref") or pair[1][0] in ("external", "ref"):
+                key = "relationship-changed"
+            else:
+                key = "part-changed:" + describe_change(pair[0], pair[1])
+        else:
+            val = (gb if kind == "part-appeared" else ga).get(path)
+            is_ref = val is not None and val[0] in ("ref", "external")
+            key = ("reference" + kind[4:] if is_ref else kind) + ":" + path[-1][0].rsplit("/", 1)[-1]
+        if re.search(allowed, key):
+            seen_documented = True
+            continue
+        acc.violation(
+            "creating:%s:%s" % (accessor, key),
+            "%s: %s (documented as creating content) also caused: %s at %s" % (label, accessor, key, path[-1][0].rsplit("/", 1)[-1]),
+            witness,
+        )
+    acc.count("creating_effect_observed" if seen_documented else "creating_effect_not_visible_in_saved_file")
+    acc.case(desc=witness, nontrivial=True, cls="creating:" + accessor)
+
+
 # ------------------------------------------------------------------ the check
 def plan(tier, seed):
     from vlib import env
@@ -407,6 +555,8 @@ def plan(tier, seed):
     units = []
     for i in range(16):
         units.append({"kind": "corpus", "decks": decks[i::16], "orders": orders})
+    for i in range(8):
+        units.append({"kind": "creating", "decks": decks[i::8]})
     ngen = 48 if tier == "quick" else 2000
     per = 3 if tier == "quick" else 125
     for lo in range(0, ngen, per):
@@ -456,7 +606,16 @@ def one_case(data, label, rnd, passes, nsaves, acc, witness):
 def run_unit(unit, tier, seed, acc):
     from vlib import env
 
-    if unit["kind"] == "corpus":
+    if unit["kind"] == "creating":
+        for d in unit["decks"]:
+            data = open(os.path.join(env.REPO, d), "rb").read()
+            for accessor in CREATING:
+                w = {"deck": d, "creating": accessor}
+                try:
+                    creating_case(data, os.path.basename(d), accessor, acc, w)
+                except Exception as e:  # noqa
+                    acc.count("deck_not_traversable:%s" % type(e).__name__)
+    elif unit["kind"] == "corpus":
         for d in unit["decks"]:
             data = open(os.path.join(env.REPO, d), "rb").read()
             for o in range(unit["orders"]):
@@ -497,7 +656,10 @@ def run_unit(unit, tier, seed, acc):
 def replay(w, acc):
     from vlib import env
 
-    if "deck" in w:
+    if "creating" in w:
+        data = open(os.path.join(env.REPO, w["deck"]), "rb").read()
+        creating_case(data, w["deck"], w["creating"], acc, w)
+    elif "deck" in w:
         data = open(os.path.join(env.REPO, w["deck"]), "rb").read()
         rnd = env.rng("C12", w["deck"], env.seed(), w["order"], tuple(w["passes"]))
         one_case(data, w["deck"], rnd, tuple(w["passes"]), w["nsaves"], acc, w)
